@@ -115,6 +115,11 @@ PROPS = {
         "Machine-checked proof about the regenerated migration function for every version-2 record, and about the store-level model for every store; the model is tied to the code by starting the real manager on datastores written with the repository's ChannelStateV2 codec (every status, boundary values), with direct field-by-field monitors.",
         "go-ds-versioning (migration run, version key, readiness gate) is modelled, not verified; the version-2 records are encoded with the repository's own cbor-gen codec for ChannelStateV2 (the decoder used by the migration is its inverse; codec correctness is C12's subject); the legacy un-versioned store layout and undecodable version-2 records (which fail the whole migration) are out of the property's scope",
         corr=["corr/MigrateCorr.v"]),
+    "C06": P("props/C06.v", ["crash", "fsmhist", "noderestart"],
+        "Coq theorems over every schedule of the go-statemachine model: at every write boundary the record on disk is the result of applying exactly a prefix of the applied events (chain theorem restricted to prefixes), written records = announced records, a record persisted in a cleanup status reaches the matching terminal status with one cleanup run on CompleteCleanupOnRestart; the real Channels is driven through generated multi-channel histories and EVERY datastore-write boundary is reopened on a copy of the store and compared (raw record and accessor view) with the model's sequence of written records",
+        "Machine-checked proof at machine level for all schedules and all boundaries; tied to the code by reopening every write boundary of generated histories (several channels per store) with a fresh Channels, including restart of channels caught in a cleanup status, listing of channels, and the durability of every state a query returned.",
+        GO_SM + "; the CBOR codec of the record is not modelled in Coq: decode(encode(record)) = record is checked on every record of every crash image (raw decode and all accessors through a fresh Channels vs the model record), vouchers are opaque tokens so 'equal as DAG-CBOR data' is exercised only through the codec's own round trip (C12); crash points are datastore-write boundaries (the datastore's own atomicity of a single Put is assumed); manager-level restart paths are in noderestart",
+        corr=NODE_CORR + ["corr/CrashCorr.v"]),
 }
 
 NOT_APPLICABLE = {}
